@@ -158,6 +158,16 @@ func (P *Program) inferFramesWith(roots []*ssa.Function, timeoutMs int, override
 				return
 			}
 			handSeen[f] = true
+			// a hand-written contract that states no frame at all (noframe, no modifies, not read-only-if, not
+			// trusted) would hide this function's stores from the read-only check of everything that calls it
+			if hc := P.contractFor(f); hc != nil && hc.flag("noframe") && !hc.flag("trusted") && !hc.HasMod && !hc.ModNothing && hc.ReadonlyIf == nil && len(hc.Modifies) == 0 {
+				P.cmu.Lock()
+				if P.framelessHand == nil {
+					P.framelessHand = map[string]bool{}
+				}
+				P.framelessHand[P.relName(f)] = true
+				P.cmu.Unlock()
+			}
 		}
 		inf := &inferred{fn: f, class: clsPure}
 		for _, p := range f.Params {
